@@ -1921,3 +1921,45 @@ func checkStripperCoversRowKinds(c *Ctx, rule string) {
 			"address rows of kind "+k+" are decoded with "+needs+" (a layout whose secret slot deletePrivateKeys strips for another kind) but deletePrivateKeys has no case for them: their secret stays in the database after conversion to watching-only")
 	}
 }
+
+// checkAccountCreationRefusesExistingNumber: an account row holds the account's name and its two next indices. A
+// function that CREATES an account (it derives/accepts the account key and writes a fresh row with zero indices —
+// recognised by role: it writes an account row and is not handed an existing row's fields) must not be able to write
+// that row over an existing account: every path to the write has seen the account number absent (the not-found edge
+// of an account-row lookup by number), or the number is fresh by construction (last account + 1 in the caller).
+func checkAccountCreationRefusesExistingNumber(c *Ctx, rule string) {
+	p := c.P
+	n := 0
+	for _, fn := range p.FuncsIn("waddrmgr") {
+		if fn.Parent() != nil || fn.Signature.Recv() == nil {
+			continue
+		}
+		var writes []*ssa.Call
+		for _, w := range []string{"putDefaultAccountInfo", "putWatchOnlyAccountInfo"} {
+			writes = append(writes, callsNamed(fn, w)...)
+		}
+		if len(writes) == 0 {
+			continue
+		}
+		// creators only: the row's index arguments are the constants 0 (a rewrite passes an existing row's fields)
+		for _, w := range writes {
+			zeros := 0
+			for _, a := range w.Call.Args {
+				if k, ok := constInt(a); ok && k == 0 && isBasic(a.Type()) {
+					zeros++
+				}
+			}
+			if zeros < 2 {
+				continue
+			}
+			n++
+			unguarded := reachableAvoiding(fn, nil, w, func(from *ssa.BasicBlock, si int) bool {
+				f := edgeFactOf(from, si)
+				return f != nil && f.Kind == "nonnil" && isResultOfCall(f.V, "fetchAccountInfo", -1)
+			})
+			c.Check(rule, "account-creation-refuses-existing-number:"+fn.Name(), w.Pos(), !unguarded,
+				fnName(fn)+" writes a fresh account row (indices 0/0) without having found the account number unused: for a number that exists under another name (default account, NewAccount) the row is overwritten — the running manager keeps the old account cached, a restarted one issues its addresses again")
+		}
+	}
+	c.Floor(rule, "account-creating row writes", n, 2)
+}
